@@ -126,7 +126,10 @@ def check(run, prog, tier):
     run.rule("C13-E", "transforms and conjugate axes are computed from the current values and axis (nothing kept across an in-place change of the data)", minimum=4)
     from . import memorule
     memorule.check(run, prog, "C13-E", ['quantarhei.core.dfunction.DFunction', 'quantarhei.core.time.TimeAxis', 'quantarhei.core.frequency.FrequencyAxis', 'quantarhei.core.valueaxis.ValueAxis'],
-                   "the transform then is that of earlier values and does not equal the Fourier sum of the current ones")
+                   "the transform then is that of earlier values and does not equal the Fourier sum of the current ones",
+                   also_ok={("DFunction._get_spline_approx", "_splines_initialized"):
+                            "the interpolation splines serve at(); the Fourier transforms read self.data, never the splines "
+                            "(the stored splines are decided under C09-G)"})
     run.rule("C13-A", "centred data go through ifftshift -> (i)fft -> fftshift", minimum=8)
     run.rule("C13-B", "forward and backward prefactors multiply to one", minimum=3)
     run.rule("C13-C", "Hermitian extension: index pairs sum to the extended length", minimum=4)
